@@ -447,7 +447,34 @@ class C17:
                         f"axis must consist of exactly the lattice points inside the requested interval, in increasing order: {want}",
                         re[0].lineno, witness={"start": S, "stop": T, "left_closed": lcv, "right_closed": rcv})
                 return
-        ctx.ok("R17.6", site, f"range-based extension yields exactly the lattice points inside the requested interval, in order ({n} dyadic instances of the extracted formulas; finite-instance argument)")
+        # "keeping every original sample at its original coordinate": reindex matches coordinates bit for bit, so on a lattice whose
+        # step is not a binary fraction the original coordinates must come through unchanged (an axis that is generated afresh
+        # from a new origin differs from them in the last bits, and every original sample is replaced by the fill value)
+        cur2 = [0.3 + 0.1 * k for k in range(5)]
+        kept_all = True
+        for S, T in ((0.04, 0.93), (0.3, 0.93), (0.04, 0.7), (-0.27, 1.26)):
+            env0 = {("cmp", "is", start, NONE): False, ("cmp", "isnot", start, NONE): True, ("cmp", "is", stop, NONE): False,
+                    ("cmp", "isnot", stop, NONE): True, lc: True, rc: False, start: S, stop: T, eps: E,
+                    ("sub", rng, ("const", 0)): cur2[0], ("sub", rng, ("const", 1)): cur2[-1], step: 0.1,
+                    ("sub", data, ("const", -1)): cur2[-1], ("sub", data, ("const", 0)): cur2[0]}
+            t = peval(newc, env0)
+            env = {data: cur2, ("attr", coord, "dtype"): "f8", ("attr", data, "dtype"): "f8", "__float_arange__": True, step: 0.1, eps: E, start: S, stop: T,
+                   ("sub", rng, ("const", 0)): cur2[0], ("sub", rng, ("const", 1)): cur2[-1]}
+            try:
+                got2 = neval(t, env)
+            except NE:
+                got2 = None
+            if isinstance(got2, list) and not all(c_ in got2 for c_ in cur2):
+                lost = [c_ for c_ in cur2 if c_ not in got2]
+                ctx.bad("R17.6", self.file, "extend_dim", f"extend [{S}, {T}] of an axis with step 0.1",
+                        f"axis {cur2} (step 0.1) extended to [{S}, {T}): {len(lost)} of the original coordinates are not among the new ones bit for "
+                        f"bit (e.g. {lost[0]!r}): reindex then finds no data for them and fills them with the fill value -- the original "
+                        f"coordinates must be kept as they are and only the continuation generated", re[0].lineno,
+                        witness={"start": S, "stop": T, "lost": lost[:3]})
+                kept_all = False
+                break
+        if kept_all:
+            ctx.ok("R17.6", site, f"range-based extension yields exactly the lattice points inside the requested interval, in order ({n} dyadic instances of the extracted formulas; finite-instance argument); original coordinates kept bit for bit on a 0.1 lattice")
 
     # ------------------------------------------------------------------ R17.4 / R17.5
     def check_width_ops(self):
@@ -554,6 +581,9 @@ def check_dim_step(ctx: Ctx):
     s = ctx.summ.of_func(DIMS, "get_dim_step")
     file = s.module.relpath
     site = f"{file}:{s.node.lineno} get_dim_step"
+    # `try: return attrs[key] except KeyError: ...` is the membership test written as an exception
+    from sa.memo import membership_view
+    s = membership_view(s)
     arr, dim = ("param", s.params[0]), ("param", s.params[1])
     coord = ("sub", ("attr", arr, "coords"), dim)
     attrs = ("attr", coord, "attrs")
